@@ -135,6 +135,11 @@ def build(cfg, float_mode=False):
             d['base_transfer_params'] = {'finter': True}
     cp = {'logger_level': 50, 'dump_setup': False, 'hook_class': [RecRes] + list(cfg.get('hooks', [])) + ([ExtEntryHook] if cfg.get('exthook') else []), 'predict_type': cfg.get('predict'),
           'mssdc_jac': cfg.get('jac', True), 'all_to_done': cfg.get('all_to_done', False)}
+    if cfg.get('_shared') is not None:
+        # several controllers built from ONE controller-parameter dictionary (and one description per configuration), as a user script would do
+        sh = cfg['_shared']
+        cp = sh.setdefault('cp', cp)
+        d = sh.setdefault(('d', tuple(cfg['M']), cfg['NP']), d)
     return controller_nonMPI(cfg['NP'], cp, d), A
 
 
